@@ -530,7 +530,7 @@ class Text(JupyterMixin):
 
     def __rich_measure__(self, console: "Console", max_width: int) -> Measurement:
         text = self.plain
-        lines = text.splitlines()
+        lines = text.split("\n")
         max_text_width = max(cell_len(line) for line in lines) if lines else 0
         words = text.split()
         min_text_width = (
